@@ -370,12 +370,17 @@ def clauses(tier, seed):
              replay=None, group='jax-b', heavy=True),
       Clause('numeric:operators vs sympy closed-form harmonics', 'numeric', fns, run_sympy_oracle, replay=replay_op, group='jax-c', heavy=True),
       Clause('numeric:vector-calculus identities and wind round trip', 'numeric', fns, run_identities, group='jax-d', heavy=True),
-  ]
+  ] + _pyvc_clauses()
+
+
+def _pyvc_clauses():
+  from contracts import fourier_contracts
+  return [c for c in fourier_contracts.clauses() if any(k in c.name for k in ('shift ==', 'real_basis_derivative pairing', 'with_zero_imag pairing', 'canary'))]
 
 
 MANIFEST = {
-    'engine': 'jxa',
-    'technique': 'contract-based: linearity proved on the traced program; operator matrices on complete bases vs index formulas, sympy closed forms and vector identities (bounded over grids)',
+    'engine': 'pyvc+jxa',
+    'technique': 'contract-based deductive: shift and both longitude-derivative pairings proved from the real source for all sizes (pyvc array mode, z3); linearity proved on the traced program; operator matrices on complete bases vs index formulas, sympy closed forms and vector identities (bounded over grids)',
     'text': ('other: linearity of every operator is proved per configuration from the jaxpr; all remaining clauses are matrix identities on '
              'the complete coefficient basis (complete over fields), float64, bounded over the enumerated grids. The symbolic-size '
              'index clauses of DESIGN 3/C02 (shift, pairing for all sizes) are covered here only at enumerated sizes.'),
